@@ -282,6 +282,9 @@ type ReplayFile struct {
 	Trace     []string       `json:"trace_tail,omitempty"`
 	OrigLen   int            `json:"original_tape_len"`
 	ShrinkRun int            `json:"shrink_runs"`
+	// FromSeed: the run is reproduced by searching from Seed again (used for runs that kill the
+	// process, whose tape could not be recorded).
+	FromSeed bool `json:"from_seed,omitempty"`
 }
 
 type Summary struct {
@@ -305,6 +308,8 @@ type Summary struct {
 	HarnessErrs  []string         `json:"harness_errors"`
 	WallS        float64          `json:"wall_s"`
 	DetHash      uint64           `json:"det_hash"` // fold of all trace hashes: same seeds => same value
+	Next         int              `json:"next"`     // first run index not covered by this summary
+	Complete     bool             `json:"complete"`
 }
 
 type ViolationEntry struct {
@@ -380,7 +385,11 @@ func replayMain(sc Scenario, opts Opts) {
 	opts.Known = map[string]bool{}
 	startWatchdog(envInt("VERIF_WATCHDOG_S", 300))
 	fmt.Printf("BEGIN 0\n")
-	res := RunOnce(sc, dsim.ReplayTape(rf.Seed, rf.Tape), opts)
+	tape := dsim.ReplayTape(rf.Seed, rf.Tape)
+	if rf.FromSeed {
+		tape = dsim.NewTape(rf.Seed)
+	}
+	res := RunOnce(sc, tape, opts)
 	out, _ := json.Marshal(res)
 	fmt.Printf("REPLAY-RESULT %s\n", out)
 	if res.HarnessErr != "" {
@@ -447,10 +456,15 @@ func searchMain(name string, sc Scenario, opts Opts) {
 	knobOnlySeen := map[string]int{}
 	realRule := os.Getenv("VERIF_REAL_RULE") == "1"
 	realSearch := envInt("VERIF_REAL_SEARCH", 60)
+	ckEvery := envInt("VERIF_CHECKPOINT_EVERY", 50)
 	sum.KnobOnly = map[string]int{}
 	for i := from; i < to; i++ {
 		if time.Since(t0) > wall {
 			break
+		}
+		if ckEvery > 0 && i > from && (i-from)%ckEvery == 0 {
+			sum.Next = i
+			writeSummary(&sum, distinct, sigs, t0, outPath)
 		}
 		seed := dsim.Mix(base, uint64(i))
 		watchdogRun = i
@@ -553,6 +567,15 @@ func searchMain(name string, sc Scenario, opts Opts) {
 		}
 	}
 	watchdogRun = -1
+	sum.Complete = true
+	sum.Next = to
+	writeSummary(&sum, distinct, sigs, t0, outPath)
+	fmt.Printf("DONE runs=%d violations=%d harness_errors=%d det_hash=%d\n", sum.Runs, len(sum.Violations), len(sum.HarnessErrs), sum.DetHash)
+}
+
+func writeSummary(sum *Summary, distinct, sigs map[uint64]bool, t0 time.Time, outPath string) {
+	sum.Distinct = sum.Distinct[:0]
+	sum.SchedSigs = sum.SchedSigs[:0]
 	for h := range distinct {
 		sum.Distinct = append(sum.Distinct, h)
 	}
@@ -564,12 +587,13 @@ func searchMain(name string, sc Scenario, opts Opts) {
 	sum.WallS = time.Since(t0).Seconds()
 	b, _ := json.Marshal(sum)
 	if outPath != "" {
-		if err := os.WriteFile(outPath, b, 0o644); err != nil {
+		tmp := outPath + ".tmp"
+		if err := os.WriteFile(tmp, b, 0o644); err != nil {
 			fmt.Printf("HARNESS-ERROR %v\n", err)
 			os.Exit(2)
 		}
+		os.Rename(tmp, outPath)
 	}
-	fmt.Printf("DONE runs=%d violations=%d harness_errors=%d det_hash=%d\n", sum.Runs, len(sum.Violations), len(sum.HarnessErrs), sum.DetHash)
 }
 
 func stratFamily(s string) string {
